@@ -333,6 +333,13 @@ def rule_sp_route(ctx: RuleContext, p: Program, rid: str) -> None:
             if isinstance(e, ast.Call) and isinstance(e.func, ast.Attribute) and e.func.attr == 'from_raw_text' and isinstance(e.func.value, ast.Name) \
                     and e.func.value.id in ('Whitespace', 'Newline') and e.func.value.id not in env:
                 return possem.Obj(e.func.value.id, {'raw_text': self.expr(e.args[0], env)}, e.func.value.id)
+            if isinstance(e, ast.Call) and isinstance(e.func, ast.Attribute) and e.func.attr == 'from_raw_text' \
+                    and not (isinstance(e.func.value, ast.Name) and e.func.value.id not in env and e.func.value.id not in ('Whitespace', 'Newline')):
+                kv = self.expr(e.func.value, env)          # the class reached through a variable: `for token_cls, text in ((Whitespace, ws), (Newline, nl))`
+                if isinstance(kv, possem.ClassRef) and kv.name in ('Whitespace', 'Newline'):
+                    return possem.Obj(kv.name, {'raw_text': self.expr(e.args[0], env)}, kv.name)
+            if isinstance(e, ast.Name) and e.id in ('Whitespace', 'Newline') and e.id not in env:
+                return possem.ClassRef(e.id)
             if isinstance(e, ast.Call) and isinstance(e.func, ast.Attribute) and e.func.attr == 'join' and isinstance(e.func.value, ast.Constant):
                 return e.func.value.value.join(self.iter_of(self.expr(e.args[0], env), e))
             if isinstance(e, ast.Attribute) and isinstance(e.value, ast.Name) and self.me is not None and env.get(e.value.id) is self.me \
